@@ -776,7 +776,8 @@ func (g *gen) genCmd(ti, ci, failPct int, lit map[string]string) cmdSpec {
 // render writes the spokfile text; layout varies so that --fmt sometimes changes the file and sometimes not
 func (g *gen) render(vars []varSpec, tasks []taskSpec) string {
 	var b strings.Builder
-	if g.chance(1, 3) {
+	if len(vars) > 0 && g.chance(1, 2) {
+		// (a comment directly before a task would be that task's docstring, blank lines or not)
 		b.WriteString("# A generated spokfile\n\n")
 	}
 	for _, v := range vars {
@@ -950,6 +951,9 @@ func genC09(w *bufio.Writer, g *gen, n int) {
 		s2 := step{cwd: cwds[g.rng.Intn(len(cwds))], flags: runFlagSets[g.rng.Intn(len(runFlagSets))], args: args}
 		if g.chance(1, 4) {
 			s2.args = g.argsFor(c.tasks)
+		}
+		if g.chance(1, 4) {
+			s2.flags = []string{"json"} // the follow-up run reported as JSON: the failed task must not show as skipped
 		}
 		c.steps = []step{s1, s2}
 		if g.chance(1, 4) {
